@@ -94,6 +94,107 @@ fn build_traceparent(trace_id: &[u8; 32], parent_id: &[u8; 16]) -> [u8; 55] {
     buf
 }
 
+/// RFC 9110 §5.6.2 `tchar`.
+fn is_tchar(byte: u8) -> bool {
+    byte.is_ascii_alphanumeric()
+        || matches!(
+            byte,
+            b'!' | b'#'
+                | b'$'
+                | b'%'
+                | b'&'
+                | b'\''
+                | b'*'
+                | b'+'
+                | b'-'
+                | b'.'
+                | b'^'
+                | b'_'
+                | b'`'
+                | b'|'
+                | b'~'
+        )
+}
+
+fn is_token(bytes: &[u8]) -> bool {
+    !bytes.is_empty() && bytes.iter().all(|b| is_tchar(*b))
+}
+
+fn trim_ows(mut bytes: &[u8]) -> &[u8] {
+    while let [b' ' | b'\t', rest @ ..] = bytes {
+        bytes = rest;
+    }
+    while let [rest @ .., b' ' | b'\t'] = bytes {
+        bytes = rest;
+    }
+    bytes
+}
+
+/// Reasons an HTTP/1.x request head must not be forwarded although kawa's
+/// parser accepted it (RFC 9112 §3, §6.1-6.3). kawa is lenient on purpose;
+/// a backend that applies the grammar strictly would read different message
+/// boundaries than the ones Sōzu relays, which is request smuggling.
+fn h1_request_framing_fault(request: &GenericHttpStream) -> Option<&'static str> {
+    let buf = request.storage.buffer();
+    let kawa::StatusLine::Request {
+        version,
+        method,
+        uri,
+        ..
+    } = &request.detached.status_line
+    else {
+        return None;
+    };
+    if !matches!(version, kawa::Version::V10 | kawa::Version::V11) {
+        // H2 requests are validated by the H2 decoder (pkawa)
+        return None;
+    }
+    if !method.data_opt(buf).is_some_and(is_token) {
+        return Some("Invalid method");
+    }
+    if uri.data_opt(buf).is_none_or(|uri| uri.is_empty()) {
+        return Some("Empty request target");
+    }
+    let mut last_transfer_coding: Option<&[u8]> = None;
+    for block in &request.blocks {
+        let kawa::Block::Header(header) = block else {
+            continue;
+        };
+        if header.is_elided() {
+            continue;
+        }
+        let key = header.key.data(buf);
+        if !is_token(key) {
+            return Some("Invalid field name");
+        }
+        if compare_no_case(key, b"content-length") {
+            let value = trim_ows(header.val.data(buf));
+            if value.is_empty() || !value.iter().all(u8::is_ascii_digit) {
+                return Some("Invalid Content-Length field value");
+            }
+        } else if compare_no_case(key, b"transfer-encoding") {
+            if matches!(version, kawa::Version::V10) {
+                return Some("Transfer-Encoding in an HTTP/1.0 request");
+            }
+            for coding in header.val.data(buf).split(|b| *b == b',') {
+                let coding = trim_ows(coding);
+                if !is_token(coding) {
+                    return Some("Invalid Transfer-Encoding field value");
+                }
+                last_transfer_coding = Some(coding);
+            }
+        }
+    }
+    if let Some(coding) = last_transfer_coding {
+        // the final coding of a request must be chunked, and it must be what
+        // the parser framed the body with
+        if !compare_no_case(coding, b"chunked") || request.body_size != kawa::BodySize::Chunked {
+            return Some("Unsupported Transfer-Encoding");
+        }
+    }
+    None
+}
+
 /// `true` when `bytes` contains no CR or LF — the anti-injection
 /// invariant for any header value Sōzu serialises onto the wire. A value
 /// carrying a raw CR/LF could split one header into two (request/response
@@ -560,6 +661,12 @@ impl HttpContext {
         // Empty, length preserved) or pushes new headers. Snapshot the count
         // so the postcondition can pin "blocks only grow" for the whole edit.
         let blocks_at_entry = request.blocks.len();
+
+        if let Some(fault) = h1_request_framing_fault(request) {
+            // answered 400 by the caller, nothing is forwarded
+            request.parsing_phase.error(fault.into());
+            return;
+        }
 
         let buf = request.storage.mut_buffer();
 
